@@ -29,7 +29,7 @@ STATE = {'Wait': 'Wait', 'Start': 'Start', 'Fin': 'Fin', 'FinMod': 'FinMod', 'Fa
 
 # --------------------------------------------------------------------------- provider part
 class ProviderSession:
-    def __init__(self, **kw):
+    def __init__(self, slow_request_thread=False, **kw):
         # the worker threads of the operation registries look at their queue every 10 ms instead of every second: the
         # module `queue` seen by sdc11073.provider.sco is a shim whose Queue shortens the timeout of get(); the code of
         # the worker is untouched
@@ -55,6 +55,19 @@ class ProviderSession:
         self.proj = Projector(['vmd', 'ch', 'm1', 'pc'], [])
         self.log_pos = len(self.pair.net.log)
         self.n = 0
+        self.slow = slow_request_thread
+        if slow_request_thread:
+            # a schedule the OS may produce at any time: the thread that serves the request is slow whenever it has an
+            # OperationInvokedReport to deliver, the worker thread of the operations registry is not
+            import threading
+            from sdc11073.provider.sco import _OperationsWorker
+
+            def on_post(wire):
+                if wire.src == 'provider' and b'OperationInvokedReport' in wire.data \
+                        and not isinstance(threading.current_thread(), _OperationsWorker):
+                    return ('delay', 0.04)
+                return None
+            self.pair.net.on_post = on_post
 
     def _script(self, outcome):
         from sdc11073.provider.operations import ExecuteResult
@@ -96,7 +109,8 @@ class ProviderSession:
         out = []
         reader = self.pair.consumer.msg_reader
         mt = self.pair.mdib.data_model.msg_types
-        for w in self.pair.net.log[self.log_pos:]:
+        # in the order in which the reports ARRIVED at the subscriber
+        for w in sorted(self.pair.net.log[self.log_pos:], key=lambda x: getattr(x, 'dseq', 10 ** 9)):
             if w.src == 'provider' and b'OperationInvokedReport' in w.data:
                 md = reader.read_received_message(w.data)
                 rep = mt.OperationInvokedReport.from_node(md.p_msg.msg_node)
@@ -161,7 +175,7 @@ class ProviderSession:
                               'resp_error': False, 'reports': self._reports(), 'result_state': 'none',
                               'result_parts': [], 'unchanged': self.proj.project(self.pair.mdib) == before})
                 continue
-            time.sleep(0.005)   # let the worker thread finish sending (reports are synchronous on the loop-back)
+            time.sleep(0.06 if self.slow else 0.005)   # let both threads finish sending (reports are synchronous on the loop-back)
             resp = result.set_response.InvocationInfo
             out = {'act': 'Request', 'kind': kind, 'known': rec['known'], 'queued': rec['queued'],
                    'outcome': rec['outcome'], 'idle': rec.get('idle', 'none'), 'tx': resp.TransactionId, 'resp': resp.InvocationState.value,
@@ -306,7 +320,7 @@ def check(run, replay_path=None):
                                      'idle_quiet': len(idle_q)})
     ptraces = []
     for i, beh in enumerate(pbehs):
-        ses = ProviderSession(async_mgr=bool(i % 2))
+        ses = ProviderSession(async_mgr=bool(i % 2), slow_request_thread=(i % 4 == 2))
         ses.n = i
         try:
             ptraces.append(ses.run(beh))
